@@ -1,8 +1,8 @@
 #!/bin/bash
-# tools/r5intake.sh <prop> <k> [suffix=e] : confirm a round-5 seeded change delivered under /tmp/wt/r5/out/<prop>-<k>/
+# tools/r5intake.sh <prop> <k> [suffix=e] : confirm a seeded change delivered under $R_OUT (default /tmp/wt/r5/out)/<prop>-<k>/  (R_NO: round number for the record)
 # (seedcheck: demo passes without, fails with, suite unchanged), import it as seeded/<prop>-m<k><suffix>/ and run the property's quick check on it.
 P="$1"; K="$2"; SUF="${3:-e}"
-SRC=/tmp/wt/r5/out/$P-$K; DST=/verif/seeded/$P-m$K$SUF
+SRC=${R_OUT:-/tmp/wt/r5/out}/$P-$K; DST=/verif/seeded/$P-m$K$SUF
 [ -f "$SRC/patch.diff" ] && [ -f "$SRC/demo.py" ] || { echo "$P-$K: deliverables missing"; exit 2; }
 out=$(/verif/tools/seedcheck.sh "$SRC/patch.diff" "$SRC/demo.py" 2>&1); echo "$out" | tail -5
 echo "$out" | grep -q SEED-OK || { echo "$P-$K REJECTED"; exit 1; }
@@ -13,7 +13,7 @@ src, dst, prop, k = sys.argv[1:5]
 try: meta = json.load(open(src + "/meta.json"))
 except Exception: meta = {}
 meta["property"] = prop
-meta["origin"] = "independent sub-agent given only the property text, a list of earlier changes and a scratch worktree (round 5)"
+meta["origin"] = "independent sub-agent given only the property text, a list of earlier changes and a scratch worktree (round %s)" % __import__("os").environ.get("R_NO", "5")
 meta["confirmed_by"] = ("tools/seedcheck.sh patch.diff demo.py on a scratch worktree of /repo HEAD (%s): demo exits 0 without the change, non-zero with it; "
                         "pinned suite passing set unchanged (tools/suite.py)" % subprocess.check_output(["git", "-C", "/repo", "rev-parse", "--short", "HEAD"], text=True).strip())
 meta["run_with"] = "tools/runseed.sh seeded/%s-m%s quick" % (prop, k)
